@@ -740,7 +740,8 @@ func gen(t *rapid.T) Case {
 
 func TestCheck(t *testing.T) {
 	s := &pbt.Suite{ID: "C27", Level: "exploration",
-		Rule: "Non-trivial = a schedule in which, within one PD process, at least two calls were in flight at the same time (the second was started before the first returned) " +
+		Rule: "Two specs. ckptcrash: 1-8 sequential Tso/AllocID calls (counts 0-3) on the real LocalStore over the vfsx shim; a directory image is taken before and after every mutating file operation (temp file write torn at 0 and len/2 bytes, rename, anything else the store does); every image is booted like cmd/nokv/pd.go and must hand out an id and a timestamp greater than everything returned before the capture (non-trivial = image inside a checkpoint write after at least one value was returned). sched: " +
+			"Non-trivial = a schedule in which, within one PD process, at least two calls were in flight at the same time (the second was started before the first returned) " +
 			"and at least one of them returned, a restart follows, and at least one call returns a value after that restart. The label 'R11-shape:out-of-order-writes,restart,return' counts the " +
 			"stricter class of the design (a checkpoint write let through after the write of a LATER reservation had landed, then restart, then a returned value); it is reported separately because an " +
 			"implementation that serialises reserve+persist makes that class unreachable by construction. Distinct by case content. " +
@@ -753,5 +754,7 @@ func TestCheck(t *testing.T) {
 		},
 	}
 	pbt.Add(s, &pbt.Spec[Case]{Name: "sched", Gen: gen, Run: run, Quick: 64000, Thorough: 2400000, Shards: 8})
+	// crash points inside the checkpoint's own file operations (ckpt_test.go)
+	pbt.Add(s, &pbt.Spec[CkCase]{Name: "ckptcrash", Gen: genCk, Run: runCk, Quick: 400, Thorough: 20000, Shards: 8})
 	s.Main(t)
 }
